@@ -100,9 +100,15 @@
     (if (null? (cdr ls))
         (pred (car ls))
         (if (pred (car ls)) (every1 pred (cdr ls)) #f)))
+  (define (everyn pred lol)              ; every list in lol is a pair
+    ((lambda (rest)
+       (if (every pair? rest)
+           (if (apply pred (map car lol)) (everyn pred rest) #f)
+           (apply pred (map car lol))))
+     (map cdr lol)))
   (if (null? lol)
       (if (pair? ls) (every1 pred ls) #t)
-      (not (apply any (lambda xs (not (apply pred xs))) ls lol))))
+      (if (every pair? (cons ls lol)) (everyn pred (cons ls lol)) #t)))
 
 (define (error msg . args)
   (raise (make-exception 'user msg args #f #f)))
